@@ -1,6 +1,7 @@
 """One function per property: which specification modules generate, which judge."""
 import json, os
 import vlib
+import evalparse
 from vlib import log
 
 CHECKS = {}
@@ -186,8 +187,8 @@ def flatten_cli(run, obs_path, out_name="events.ndjson"):
     return out
 
 
-def cli_family(run, rules, modes, rule_text):
-    flagged = []
+def cli_family(run, rules, modes, rule_text, flagged=None):
+    flagged = flagged or []
     for mode in modes:
         cases, r = run.mc("MC_Cli", {"KV_MODE": mode}, out_name="cases-%s.ndjson" % mode)
         obs = run.drive(cases, obs_name="obs-%s.ndjson" % mode)
@@ -216,3 +217,79 @@ def c05(run):
 @check("C11", "Trace_Cli")
 def c11(run):
     return cli_family(run, "C11", ["single", "pairs"], "seed files with per-record style combinations x mutating commands x config")
+
+
+@check("C17", "Trace_Cli")
+def c17(run):
+    pre = eval_family(run, "C17", ["total"], "", finish=False)
+    return cli_family(run, "C17,C05.Atomic,C05.Valid", ["clock"], flagged=pre, rule_text="`total --now` / `json --now` on open ranges dated "
+        "today / yesterday / older / tomorrow at several clock readings; and " "all 1440 minutes of the day x roundings {none,5,10,12,15,20,30,60} x date "
+        "selection {default, --today, --yesterday, --tomorrow} x start/stop/switch x six layouts of open ranges around today x five kinds "
+        "of days (ordinary, leap day, 1 March, 31 December, 1 January); quick tier: every minute with a rotating rounding/layout/day")
+
+
+def eval_family(run, rules, modes, rule_text, chunk=1500, flagged=None, finish=True):
+    flagged = flagged or []
+    for mode in modes:
+        cases, r = run.mc("MC_Eval", {"KV_MODE": mode}, out_name="cases-%s.ndjson" % mode)
+        obs = run.drive(cases, obs_name="obs-%s.ndjson" % mode)
+        run.postprocess(obs, evalparse.postprocess)
+        flagged += run.judge("Trace_Eval", obs, env={"KV_RULES": rules}, chunk=chunk)
+    if not finish:
+        return flagged
+    return vlib.finish(run, flagged, rule_text=rule_text)
+
+
+@check("C02", "Trace_Eval")
+def c02(run):
+    return eval_family(run, "C02", ["total"], "files with every single entry kind and pairs of entry kinds (shifted/unshifted ranges, 24:00 forms, "
+        "signed and zero durations, open ranges) x should-totals x record dates relative to now x clock readings; total/should/diff from "
+        "`klog total` (decimal and h/m), `klog json`, `print --with-totals`, with and without --now")
+
+
+@check("C12", "Trace_Eval")
+def c12(run):
+    return eval_family(run, "C12", ["report"], "files whose dates are drawn from a pool around ISO-week-year, month, quarter and year boundaries "
+        "(unsorted, duplicates, negative totals) x report --aggregate day|week|month|quarter|year with --diff and with --fill, total, today, "
+        "print --with-totals")
+
+
+@check("C13", "Trace_Eval")
+def c13(run):
+    return eval_family(run, "C13", ["filter"], "a 14-record file with tags at record and entry level (dates placed relative to a reference date at "
+        "offsets -400..+31 days, file order ascending and descending) x every date clause with boundary dates equal to record dates, every "
+        "period shape, all relative shortcuts at six reference dates (year/week-year/month/quarter boundaries, leap day), tag clauses with "
+        "and without values, entry types, cross-kind combinations, --sort", chunk=4)
+
+
+@check("C14", "Trace_Eval")
+def c14(run):
+    return eval_family(run, "C14", ["tags"], "all summaries `#` + 4 characters and `x#` + 3 characters + `#a` over a 14-character alphabet "
+        "(letters incl. non-ASCII and mixed case, digit, #, =, both quotes, _, -, space, !) plus redundancy patterns in record and entry "
+        "summaries: `klog json` tags arrays and `klog tags --values --count --decimal` totals", chunk=3000)
+
+
+@check("C18", "Trace_Eval")
+def c18(run):
+    return eval_family(run, "C18", ["style", "report"], "files with Unicode summaries/tags, negative and large totals x 9 commands x schemes "
+        "{dark, light, basic, no_colour, NO_COLOR, --no-style}: stripped outputs identical, unstyled outputs free of escapes, equal row widths", chunk=200)
+
+
+@check("C20", "Trace_Eval")
+def c20(run):
+    flagged = eval_family(run, "C20", ["total", "tags", "filter"], "", finish=False, chunk=1500)
+    # invalid input: error objects vs. the terminal report
+    cases, r = run.mc("MC_Parse", {"KV_WANT": "invalid"})
+    lines = [json.loads(l) for l in open(cases, encoding="utf-8") if l.strip()]
+    with open(cases, "w", encoding="utf-8") as f:
+        for c in lines:
+            c["kind"] = "view"
+            f.write(json.dumps(c, ensure_ascii=False) + "\n")
+    obs = run.drive(cases, obs_name="obs-invalid.ndjson")
+    run.postprocess(obs, vlib.decode_json_fields)
+    flagged += run.judge("Trace_Parse", obs, env={"KV_RULES": "C10.Json"}, chunk=6000)
+    run.assumptions = ["well-formedness of the JSON text is decided by Python's json module (an independent parser) before TLC sees the value"]
+    return vlib.finish(run, flagged, rule_text="`klog json` on every generated evaluation file (all entry kinds, tags, filters, --sort, --now, "
+        "--pretty for invalid input): one well-formed document, exactly one of records/errors non-null, every field of every record and "
+        "entry compared with the specification's view, arithmetic relations between the fields; for invalid input the error objects "
+        "against the parser's errors")
